@@ -3,7 +3,7 @@
 From Coq Require Import List ZArith NArith Bool Lia.
 From Coq.Strings Require Import Byte.
 From RimeV Require Import Base.Bytes Eng.Keys Eng.Cand Eng.Segm Eng.Ctx Eng.Engine Eng.Procs Eng.Api Eng.Oracle
-     Eng.Spec Eng.WfProofs Eng.CommitProofs Eng.TotalFull Eng.TotalProofs.
+     Eng.Spec Eng.WfProofs Eng.CommitProofs Eng.TotalFull Eng.TotalProofs Eng.ShapeFacts.
 Import ListNotations.
 
 (** (1) With full-shape conversion off, in ANY state (any configuration, any
@@ -20,6 +20,44 @@ Theorem C03_commit_is_preview :
     snd r = RBool (negb (match st_commit (fst r) with [] => true | _ => false end)).
 Proof. exact commit_is_preview. Qed.
 Print Assumptions C03_commit_is_preview.
+
+(** (1') The same call with full-shape conversion on or off (the property's clause is the off case; this is what the
+    code does outside it, so that the check can tell a change of the formatter from a change of the commit path):
+    what is delivered is ShapeFormatter::Format of the preview reported just before ... *)
+Theorem C03_commit_is_formatted_preview :
+  forall cfg translate (s : state),
+    let v := fst (view_of cfg s) in
+    let r := exec cfg translate s OpCommit in
+    st_commit (fst r) = st_commit s ++ (if is_composing (st_ctx s) then format_text (st_ctx s) (v_preview v) else []) /\
+    is_composing (st_ctx (fst r)) = false.
+Proof. exact commit_any_shape. Qed.
+Print Assumptions C03_commit_is_formatted_preview.
+
+(** ... and the formatter touches printable ASCII only: a text without a byte in 0x20 .. 0x7e - every candidate text of
+    a Chinese dictionary - is delivered exactly as previewed whatever the option says; otherwise each such byte grows
+    by two (its three-byte full-width form) and nothing else changes length. *)
+Theorem C03_formatter_keeps_non_ascii :
+  forall c t, forallb shape_outside t = true -> format_text c t = t.
+Proof. exact format_text_no_ascii. Qed.
+Print Assumptions C03_formatter_keeps_non_ascii.
+
+Theorem C03_formatter_length :
+  forall c t,
+    length (format_text c t) = length t \/
+    (get_option c opt_full_shape = true /\
+     length (format_text c t) = length t + 2 * length (filter (fun b => negb (shape_outside b)) t)).
+Proof. exact format_text_length. Qed.
+Print Assumptions C03_formatter_length.
+
+(** ... and the formatter of the model is the one in src/rime/gear/shape.cc today: the statements of
+    ShapeFormatter::Format as gen/eng_facts.py reads them on every run (Gen/EngFacts.v), evaluated on a signed char,
+    agree with the model on all 256 byte values (so "full-shape off" in (1) is the only way the preview is kept for
+    ASCII, and a change of the formatter's constants breaks this statement before any history is run). *)
+Theorem C03_formatter_is_the_source_s :
+  RimeV.Gen.EngFacts.shape_facts_recognised = true /\
+  forall b, shape_outside b = src_outside b /\ shape_wide b = src_wide b.
+Proof. exact shape_model_is_source. Qed.
+Print Assumptions C03_formatter_is_the_source_s.
 
 (** (2) Selecting a candidate [cd] (any index [i] at which the current segment
     [g] has one) that covers the rest of the input – after Segment::Close the
@@ -185,3 +223,24 @@ Proof.
   eexists. split; [vm_compute; reflexivity|]. split; [discriminate|]. repeat split; vm_compute; reflexivity.
 Qed.
 Print Assumptions C03_example_fluid.
+
+(** Non-vacuity of (1'): with full_shape on, a preview holding the ASCII letter G (0x47) is delivered with U+FF27
+    (ef bc a7) in its place - the history shape on which a check that ignored the option raised a false alarm - while a
+    preview of candidate text only is delivered unchanged. *)
+Theorem C03_example_full_shape :
+  let run1 ops := map c03_summary (snd (run (synth_cfg true true) oracle_translate ops)) in
+  (exists a b cf, nth 2 (run1 [OpSetOption opt_full_shape true; OpSetInput [x71; x20; x7e]; OpGetContext; OpCommit]) None
+               = Some (RNone, [], a ++ [x47] ++ b, cf, true) /\
+               nth 3 (run1 [OpSetOption opt_full_shape true; OpSetInput [x71; x20; x7e]; OpGetContext; OpCommit]) None
+               = Some (RBool true, a ++ [xef; xbc; xa7] ++ b, [], [], false)) /\
+  (exists p cf, p <> [] /\
+             nth 3 (run1 [OpSetOption opt_full_shape true; OpKey 97 0; OpKey 98 0; OpGetContext; OpCommit]) None
+             = Some (RNone, [], p, cf, true) /\
+             nth 4 (run1 [OpSetOption opt_full_shape true; OpKey 97 0; OpKey 98 0; OpGetContext; OpCommit]) None
+             = Some (RBool true, p, [], [], false)).
+Proof.
+  cbv zeta. split.
+  - exists [xc3; xb1]. exists [xe4; xb9; xbe]. eexists. split; vm_compute; reflexivity.
+  - eexists. eexists. split; [|split; vm_compute; reflexivity]. discriminate.
+Qed.
+Print Assumptions C03_example_full_shape.
